@@ -19,12 +19,13 @@ modelled class with a different `__eq__`.)  `object.__eq__` answers `True` for t
 `NotImplemented` otherwise; `object.__ne__` inverts `__eq__` unless that is `NotImplemented`.
 
 Two variants are given where the shipped code and the proposed repair differ:
-* `Variant.shipped` — the code as it is in /repo at the pinned commit:
+* `Variant.shipped` — the code as it was in /repo at the pinned commit:
   `ImmutableFileNode.__ne__` returns `self.u.__eq__(other.u)` (sic), `DirectoryNode` and `UnknownURI`
-  define none of the three methods (object identity);
+  define none of the three methods (object identity), `UnknownNode` defines `__eq__` and no `__hash__` (unhashable);
 * `Variant.fixed` — fixes/C43-ne.diff (`__ne__` returns `self.u.__ne__(other.u)`),
   fixes/C43-dirnode-eq.diff and fixes/C43-unknownuri-eq.diff (class-and-cap-string equality, like
-  `MutableFileNode`).
+  `MutableFileNode`), fixes/applied/C43-unknownnode-hash.diff (`UnknownNode.__hash__` =
+  `hash((self.__class__, self.ro_uri, self.rw_uri))`).  All four are committed in /repo.
 The driver and the property theorems use `fixed`; `shipped` carries the counterexample theorems.
 
 Hash values are symbolic (`HashVal`): CPython's `hash(bytes)`, `hash(None)`, `object.__hash__` (a function of
@@ -225,7 +226,13 @@ inductive HashVal
   | ofNone                                    -- hash(None)
   | ofIdent (id : Nat)                        -- object.__hash__(x)
   | ofClassAnd (cls : String) (h : HashVal)   -- hash((SomeClass, x)) with hash(x) = h
+  | ofPair (h1 h2 : HashVal)                  -- the (x, y) part of hash((SomeClass, x, y))
   deriving DecidableEq, Repr
+
+/-- `hash(x)` of a `bytes`-or-`None` attribute -/
+def hashOpt : Option Bytes → HashVal
+  | some b => .ofBytes b
+  | none => .ofNone
 
 /-- `hash(a)`; `none` = `TypeError: unhashable type` -/
 def hashMethod (var : Variant) : Obj → Option HashVal
@@ -241,7 +248,11 @@ def hashMethod (var : Variant) : Obj → Option HashVal
     match var with
     | .shipped => some (.ofIdent i)
     | .fixed => some (.ofClassAnd "DirectoryNode" (.ofBytes u.toString))
-  | .unknownNode _ _ _ => none                                   -- __eq__ without __hash__ ⇒ __hash__ = None
+  | .unknownNode _ rw ro =>
+    match var with
+    | .shipped => none                                           -- __eq__ without __hash__ ⇒ __hash__ = None
+    | .fixed =>                                                  -- hash((self.__class__, self.ro_uri, self.rw_uri))
+      some (.ofClassAnd "UnknownNode" (.ofPair (hashOpt ro) (hashOpt rw)))
   | .other i => some (.ofIdent i)
 
 /-- an interpretation of the symbolic hash values as machine integers -/
@@ -250,12 +261,14 @@ structure HashInterp where
   none_ : Int
   ident : Nat → Int
   tuple : String → Int → Int
+  pair : Int → Int → Int
 
 def HashInterp.eval (I : HashInterp) : HashVal → Int
   | .ofBytes s => I.bytes s
   | .ofNone => I.none_
   | .ofIdent i => I.ident i
   | .ofClassAnd c h => I.tuple c (I.eval h)
+  | .ofPair a b => I.pair (I.eval a) (I.eval b)
 
 /-! ### what the property statement talks about -/
 
